@@ -62,7 +62,8 @@ def atoms_desc(draw, min_atoms=2, max_atoms=8, species=None, extra_arrays=True, 
         ck = draw(st.sampled_from([None, None] + list(constraints)))
         if ck == "FixAtoms":
             idx = draw(st.lists(st.integers(0, n - 1), min_size=1, max_size=max(1, n - 1), unique=True))
-            desc["constraints"].append({"kind": "FixAtoms", "indices": sorted(idx)})
+            # "split": the same atoms fixed by two separate FixAtoms objects (indices[:split] and indices[split:])
+            desc["constraints"].append({"kind": "FixAtoms", "indices": sorted(idx), "split": draw(st.integers(0, len(idx)))})
         elif ck == "FixCom":
             desc["constraints"].append({"kind": "FixCom"})
         elif ck == "Hookean":
@@ -92,7 +93,12 @@ def build_atoms(desc) -> Atoms:
     cons = []
     for c in desc.get("constraints", []):
         if c["kind"] == "FixAtoms":
-            cons.append(FixAtoms(indices=list(c["indices"])))
+            k = int(c.get("split") or 0)
+            if 0 < k < len(c["indices"]):
+                cons.append(FixAtoms(indices=list(c["indices"][:k])))
+                cons.append(FixAtoms(indices=list(c["indices"][k:])))
+            else:
+                cons.append(FixAtoms(indices=list(c["indices"])))
         elif c["kind"] == "FixCom":
             cons.append(FixCom())
         elif c["kind"] == "Hookean":
